@@ -462,8 +462,10 @@ func c05Reject(c *Ctx) *RuleResult {
 				gs := flattenGuards(GuardsOf(info, u.Decl.Body, no.Node))
 				isDedup := false
 				for _, gd := range gs {
-					if id, ok := ast.Unparen(gd.Cond).(*ast.Ident); ok && gd.Pos && id.Name == "ok" {
-						isDedup = true
+					if src := guardIdentSource(u, gd); src != nil && gd.Pos {
+						if _, isIx := ast.Unparen(src).(*ast.IndexExpr); isIx {
+							isDedup = true // inside the "found an existing task / operation" branch
+						}
 					}
 				}
 				if isDedup {
@@ -515,6 +517,6 @@ func init() {
 		Level: "other",
 		Explanation: "Structural necessary conditions of 'tasks only reach matching, undrained workers': longest-prefix lookup only for Execute, exact lookups elsewhere and exact (platform, size class) key in Synchronize; trie re-indexing before removal; every assignment of queued work is guarded by a never-stale !isDrained; drain additions/removals and terminations wake the affected workers on the same paths; the no-queue rejection codes and ordering; the patched instance name suffix. Trie semantics and registration histories are not decided.",
 		Assumptions: []string{"platform.Trie (tested by the existing suite) implements exact/longest-prefix lookup correctly"},
-		Rules:       []RuleFunc{c05Lookup, c05Drain, c05Wake, c05Reject},
+		Rules:       []RuleFunc{c05Lookup, c05Drain, c05Wake, c05Reject, schedMatchArgs, schedParallelSlices},
 	})
 }
